@@ -386,6 +386,90 @@ def rule_mapping_cycle(ctx: Ctx) -> RuleResult:
     return rr
 
 
+def rule_command_else(ctx: Ctx) -> RuleResult:
+    """`if self._command_map[key] == UP: ... else:  # down` treats every other key as the second command.  That
+    is only right when each path to the dispatch has first restricted the key to the two commands (`not in {UP,
+    DOWN}` -> return, or `in {...}`).  The one path that may bypass the restriction is the false edge of
+    `self.selectable()`: keypress() is only ever called on a selectable widget."""
+    from ..rules.exc import ExcEngine
+
+    p = ctx.p
+    rr = RuleResult("EXHAUST", "C08.11", "an if/else on the key's command whose else-arm stands for the other command is reached only after the key was restricted to those two commands", floor=4)
+
+    def cmd_subject(e):
+        return isinstance(e, ast.Subscript) and "_command_map" in ast.unparse(e.value)
+
+    for fi in p.functions.values():
+        if not fi.module.name.startswith("urwid.widget") or fi.name != "keypress":
+            continue
+        disp = []
+        for n in fi.own_nodes():
+            if isinstance(n, ast.If) and n.orelse and isinstance(n.test, ast.Compare) and len(n.test.ops) == 1 and isinstance(n.test.ops[0], ast.Eq) and cmd_subject(n.test.left):
+                first = n.orelse[0]
+                if isinstance(first, ast.If) and "_command_map" in ast.unparse(first.test):
+                    continue
+                disp.append(n)
+        if not disp:
+            continue
+        cfg = cfg_of(fi)
+        sn = fi.self_name
+        for d in disp:
+            A = ast.unparse(d.test.comparators[0])
+            subj = ast.unparse(d.test.left)
+            dn = [n for n in cfg.nodes if n.kind == "test" and n.ast is d.test]
+            if not dn:
+                continue
+            # restricting edges
+            cut = []
+            for t in cfg.nodes:
+                if t.kind != "test":
+                    continue
+                for c in ast.walk(t.ast):
+                    if isinstance(c, ast.Compare) and len(c.ops) == 1 and isinstance(c.ops[0], (ast.In, ast.NotIn)) and ast.unparse(c.left) == subj and isinstance(c.comparators[0], (ast.Set, ast.Tuple, ast.List)):
+                        elts = [ast.unparse(x) for x in c.comparators[0].elts]
+                        if len(elts) == 2 and A in elts and c is t.ast:
+                            cut.append((t, "T" if isinstance(c.ops[0], ast.In) else "F"))
+            contract = [(t, "T") for t in cfg.nodes if t.kind == "test" and ast.unparse(t.ast) == f"{sn}.selectable()"]
+            # reach the dispatch from entry while only ever leaving a restricting test through its non-restricting edge
+            seen, work, bad = {cfg.entry}, [cfg.entry], False
+            while work:
+                n = work.pop()
+                for m, lab in n.succ:
+                    if lab == "e":
+                        continue
+                    if any(n is t and lab == l_ for t, l_ in cut):
+                        continue  # restricted from here on
+                    if any(n is t for t, _l in contract) and lab == "F":
+                        continue  # not selectable: excluded by the calling convention
+                    if m in seen:
+                        continue
+                    seen.add(m)
+                    work.append(m)
+            bad = dn[0] in seen
+            rr.inst(f"{short(fi)}:{norm(d.test, 50)}", True, {"dispatch": f"{short(fi)}: if {norm(d.test, 50)} ... else", "restricting_tests": [norm(t.ast, 60) for t, _ in cut], "contract_bypass": [norm(t.ast, 30) for t, _ in contract]})
+            if bad:
+                rr.add(finding("EXHAUST", fi, d, f"`if {norm(d.test, 50)}: ... else:` can be reached with a key that was never restricted to the two commands (only a `{sn}.selectable()` test may bypass the restriction): any other key - 'x', 'enter', 'tab' - takes the else-arm, moves the focus and is swallowed", construct=f"unrestricted else-arm of {norm(d.test, 50)}"))
+    return rr
+
+
+def rule_copy_fresh(ctx: Ctx) -> RuleResult:
+    """CommandMap.copy() is the documented way to give one widget its own key bindings: the copy must own a fresh
+    mapping, otherwise rebinding a key on the copy changes the shared map of every container."""
+    p = ctx.p
+    rr = RuleResult("FRESH", "C08.12", "CommandMap.copy() gives the copy its own key->command dict", floor=1)
+    fi = p.func("urwid.command_map.CommandMap.copy")
+    sn = fi.self_name
+    stores = [n for n in fi.own_nodes() if isinstance(n, ast.Assign) and any(isinstance(t, ast.Attribute) and t.attr == "_command" and not (isinstance(t.value, ast.Name) and t.value.id == sn) for t in n.targets)]
+    shallow = [c for c in fi.own_nodes() if isinstance(c, ast.Call) and isinstance(c.func, ast.Attribute) and c.func.attr == "update" and "__dict__" in ast.unparse(c.func.value)]
+    rr.inst("copy", True, {"stores": [norm(s_, 60) for s_ in stores], "dict_updates": [norm(c, 60) for c in shallow]})
+    FRESH = ("dict", "copy", "deepcopy")
+    ok = bool(stores) and all(isinstance(s_.value, (ast.Dict, ast.DictComp)) or (isinstance(s_.value, ast.Call) and callee_name(s_.value) in FRESH) for s_ in stores)
+    if shallow or not ok:
+        at = shallow[0] if shallow else (stores[0] if stores else fi.node)
+        rr.add(finding("FRESH", fi, at, "copy() does not give the new CommandMap a dict of its own (dict(self._command) / .copy()): the copy and the shared urwid.command_map alias one mapping, so rebinding 'j' on one ListBox's private copy makes every Pile/Columns treat 'j' as a cursor key", construct="copy shares the _command dict"))
+    return rr
+
+
 def run(ctx: Ctx):
     p = ctx.p
     from . import c16
@@ -406,6 +490,8 @@ def run(ctx: Ctx):
         rule_selectable_target(ctx),
         rule_mapping_cycle(ctx),
         rule_empty_guard(ctx),
+        rule_command_else(ctx),
+        rule_copy_fresh(ctx),
     ]
 
 
@@ -414,6 +500,10 @@ _C = "urwid/widget/columns.py"
 _G = "urwid/widget/grid_flow.py"
 _F = "urwid/widget/frame.py"
 MUTANTS = [
+    Mut("pile-offers-key-only-to-selectable-focus", "urwid/widget/pile.py", "Pile.keypress", "        if self.selectable():\n            key = self.focus.keypress(size_args[i], key)", "        if self.focus.selectable():\n            key = self.focus.keypress(size_args[i], key)", "EXHAUST|widget.pile.Pile.keypress"),
+    Mut("twin-pile-restriction-hoisted", "urwid/widget/pile.py", "Pile.keypress", "        if self.selectable():\n            key = self.focus.keypress(size_args[i], key)\n            if self._command_map[key] not in {Command.UP, Command.DOWN}:\n                return key\n", "        if self.focus.selectable():\n            key = self.focus.keypress(size_args[i], key)\n        if self._command_map[key] not in {Command.UP, Command.DOWN}:\n            return key\n", twin=True),
+    Mut("command-map-copy-shares-dict", "urwid/command_map.py", "CommandMap.copy", "c._command = dict(self._command)", "c.__dict__.update(self.__dict__)", "FRESH|command_map.CommandMap.copy"),
+    Mut("twin-command-map-copy-method", "urwid/command_map.py", "CommandMap.copy", "c._command = dict(self._command)", "c._command = self._command.copy()", twin=True),
     Mut("pile-setter-off-by-one", _P, None, "            if position < 0 or position >= len(self.contents):\n                raise IndexError(f\"No Pile child widget at position {position}\")", "            if position < 0 or position > len(self.contents):\n                raise IndexError(f\"No Pile child widget at position {position}\")", "GUARD|"),
     Mut("columns-setter-unvalidated", _C, None, "        try:\n            if position < 0 or position >= len(self.contents):\n                raise IndexError(f\"No Columns child widget at position {position}\")\n        except TypeError as exc:\n            raise IndexError(f\"No Columns child widget at position {position}\").with_traceback(\n                exc.__traceback__\n            ) from exc\n        self.contents.focus = position", "        self.contents.focus = position", "GUARD|"),
     Mut("pile-selectable-not-refreshed", _P, "Pile._contents_modified", "        self._selectable = any(w.selectable() for w, o in self.contents)\n", "", "SIB|"),
